@@ -147,15 +147,52 @@ def default_site_failures():
                 yield cname, fname, 'one mutable object is the default of every instance (structural: no per-instance factory, converter returns the same object)'
             continue
         try:
+            p0, p1 = mk(), mk()
+            deterministic = rt.same(getattr(p0, fname), getattr(p1, fname))
+            pristine = copy.deepcopy(getattr(p0, fname))
             a = mk()
             if not mutate_in_place(getattr(a, fname)):
                 continue
             b = mk()
             if getattr(b, fname) is getattr(a, fname):
                 yield cname, fname, 'editing %s.%s of one instance in place changes the default of an instance created afterwards (both hold the same object)' % (q, fname)
+            elif deterministic and not rt.same(getattr(b, fname), pristine):
+                yield cname, fname, ('editing %s.%s of one instance in place changes the default value of an instance created afterwards '
+                                     '(different objects sharing their contents)' % (q, fname))
+            elif deterministic and not rt.same(getattr(p0, fname), pristine):
+                yield cname, fname, 'editing %s.%s of one instance in place changes the same field of an instance created before' % (q, fname)
         except Exception:  # pylint: disable=broad-except
             if kind == 3:
                 yield cname, fname, 'one mutable object is the default of every instance'
+
+
+def vector_copy_failures(cls, buf):
+    """A vector built from another vector of its class (what the attrs converters of the message classes do) must not
+    share its item list with the source."""
+    from cryptoparser.common.base import ArrayBase
+    if not (isinstance(cls, type) and issubclass(cls, ArrayBase)):
+        return
+    try:
+        v1, _ = cls.parse_immutable(buf)
+        before = copy.deepcopy(v1)
+        v2 = cls(v1)
+    except Exception:  # pylint: disable=broad-except
+        return
+    edited = False
+    for edit in (lambda v: v.append(v[0]), lambda v: v.__delitem__(0), lambda v: v.insert(0, v[-1]), lambda v: v.__setitem__(0, v[-1])):
+        try:
+            if len(v2):
+                edit(v2)
+                edited = True
+        except Exception:  # pylint: disable=broad-except
+            pass
+    if edited and not rt.same(v1, before):
+        yield 'editing a %s built from another one changes the source vector' % cls.__name__
+    try:
+        if edited and bytes(v1.compose()) != bytes(before.compose()):
+            yield 'editing a %s built from another one changes what the source vector composes' % cls.__name__
+    except Exception:  # pylint: disable=broad-except
+        pass
 
 
 def run(chk):
@@ -187,6 +224,11 @@ def run(chk):
                     if key not in seen:
                         seen.add(key)
                         chk.violation('%s: %s' % (name, detail), {'class': name, 'input': b.hex(), 'predicate': 'observer', 'observer': obs}, key, True)
+                for detail in vector_copy_failures(cls, b):
+                    key = '%s/vector-copy' % name
+                    if key not in seen:
+                        seen.add(key)
+                        chk.violation('%s: %s' % (name, detail), {'class': name, 'input': b.hex(), 'predicate': 'vector-copy'}, key, True)
                 for kind, detail in alias_failures(cls, b):
                     key = '%s/alias:%s' % (name, kind)
                     if key not in seen:
@@ -211,7 +253,7 @@ def run(chk):
     chk.coverage['distinct_nontrivial'] = evals
     chk.coverage['default_sites'] = {'total': sites, 'by_kind': {str(k): sum(1 for s in gen_tables.default_sites() if s[2] == k) for k in (1, 2, 3, 4, 5)}}
     chk.coverage['rule'] = ('every attrs default site of the library exhaustively (construct, edit the field in place, construct again, compare with a '
-                            'copy of the pristine default); for every class reached by the repository tests and every vector (plus mutations): parse '
+                            'copy of the pristine default, by identity and by value); every vector class: a vector built from a vector, edited in place, source compared; for every class reached by the repository tests and every vector (plus mutations): parse '
                             'from a bytearray, overwrite and clear the buffer, compare the object with a deep copy taken before (parse_immutable and '
                             'parse_mutable); random histories of %d observer calls (compose, as_json, as_markdown, _asdict, ja3, hassh, fingerprints, '
                             'key_tag, key_bytes, host_key_asdict, str, repr) with the object compared with a deep copy after every call and results '
@@ -230,11 +272,16 @@ def replay(path):
         hits = [x for x in default_site_failures() if x[0] == r['class'] and x[1] == r['field']]
         print(hits or 'default is per-instance')
         ok = not hits
-    elif pred in ('observer', 'alias'):
+    elif pred in ('observer', 'alias', 'vector-copy'):
         mod, q = r['class'].rsplit('.', 1)
         cls = sweep.resolve(mod, q)
         b = bytes.fromhex(r['input'])
-        fails = list(observer_failures(cls, b, random.Random(0), 80)) if pred == 'observer' else list(alias_failures(cls, b))
+        if pred == 'observer':
+            fails = list(observer_failures(cls, b, random.Random(0), 80))
+        elif pred == 'alias':
+            fails = list(alias_failures(cls, b))
+        else:
+            fails = list(vector_copy_failures(cls, b))
         print(fails or 'no failure')
         ok = not fails
     else:
